@@ -18,7 +18,7 @@ VARIABLE pcase
 PBody == POFamBody(pcase)
 PMsg  == [body |-> PBody, meaning |-> "", desc |-> "d"]
 
-Init == pcase \in {d \in POFamFlat(MaxParts) \cup POFamPlural(MaxInner) : PODomain(POFamBody(d))}
+Init == pcase \in {d \in POFamFlat(MaxParts) \cup POFamPlural(MaxInner) \cup POFamExtra : PODomain(POFamBody(d))}
 Next == UNCHANGED pcase
 
 \* values of the plural subject to try (a plural-free message reads $n too)
@@ -45,7 +45,7 @@ ExpectedIsSource ==
 RenderWith(cat, m, loc, env) ==
   IF MsgIdAbs(m) \in DOMAIN cat THEN PORender(m.body, cat[MsgIdAbs(m)], loc, env) ELSE PORenderSrc(m.body, env)
 
-Other == [body |-> <<MText("some other message "), MPrint(MsgVar("x"))>>, meaning |-> "", desc |-> ""]
+Other == [body |-> <<MText("some other message "), MPrint(MsgVar("y"))>>, meaning |-> "", desc |-> ""]
 CatOf(m, loc) == LET e == POExtract(m) IN (MsgIdAbs(m) :> POLoad(e, POTranslate("rev", e, loc)))
 
 AbsentFallsBack ==
